@@ -219,10 +219,10 @@ Example C19_jsonl_all_kinds_ex :
   let c := [110; 117; 108; 108; 10; 102; 97; 108; 115; 101; 10; 48; 10; 34; 34; 10; 91; 93; 10; 123; 32; 125; 10;
             110; 117; 108; 10; 116; 114; 117; 101] in      (* null false 0 "" [] { } nul true *)
   jsonl_iter mini_loads Binary true false c
-  = Ok ([JNull; JBool false; JInt 0; JStr []; JList; JDict; JBool true], false) /\
+  = Ok ([JNull; JBool false; JInt 0; JStr []; JCont [91; 93]; JCont [123; 125]; JBool true], false) /\
   jsonl_iter mini_loads Binary true true c
-  = Ok ([JBool true; JDict; JList; JStr []; JInt 0; JBool false; JNull], false) /\
-  jsonl_iter mini_loads Binary false false c = Ok ([JNull; JBool false; JInt 0; JStr []; JList; JDict], true).
+  = Ok ([JBool true; JCont [123; 125]; JCont [91; 93]; JStr []; JInt 0; JBool false; JNull], false) /\
+  jsonl_iter mini_loads Binary false false c = Ok ([JNull; JBool false; JInt 0; JStr []; JCont [91; 93]; JCont [123; 125]], true).
 Proof. exact (conj eq_refl (conj eq_refl eq_refl)). Qed.
 
 (* ---- the Spec itself: "never splits anywhere else" ----------------------------------------- *)
